@@ -231,7 +231,18 @@ def make_e_abc(params, part, nparts):
         ns = {}
         exec(src, ns)
         A = abc.ABCMeta('A', (object,), {'meth': abc.abstractmethod(ns['meth'])})
-        I = ABCInterfaceClass('IA', (ABCInterface,), {'abc': A})
+        # the interface body may define methods of its own next to the ones taken from the ABC: those have no self to strip
+        exec('def own(first, second=2, *rest, **opts): pass\ndef bare(): pass\n', ns)
+        I = ABCInterfaceClass('IA', (ABCInterface,), {'abc': A, 'own': ns['own'], 'bare': ns['bare']})
+        for nm in ('own', 'bare'):
+            info_o = I[nm].getSignatureInfo()
+            exp_o = _expected(ns[nm], 0)
+            for what in ('positional', 'required', 'optional', 'varargs', 'kwargs'):
+                got = info_o[what]
+                got = tuple(got) if what in ('positional', 'required') else got
+                if got != exp_o[what]:
+                    raise Violation('ABC-derived interface, method %s defined in the interface body: %s=%r expected %r' % (nm, what, got, exp_o[what]),
+                                    signature='C18:abc:body-method')
         m = I['meth']
         exp = _expected(ns['meth'], 1)
         reached(case, dict(src=src.splitlines()[0]))
